@@ -528,6 +528,7 @@ type Contract struct {
 	Line      int
 	Assumed   bool
 	Inline    bool
+	RetClosure    string   // returnsclosure NAME: the (single) result is a closure of that function
 	FuncSetGlobal string   // funcset GLOBAL = f1, f2: dynamic calls through this immutable table are one of these
 	FuncSet       []string
 	FreshRes  bool
@@ -578,7 +579,7 @@ type SpecFile struct {
 
 var topKeywords = map[string]bool{"global": true, "ghost": true, "ufunc": true, "pred": true, "sfunc": true, "axiom": true, "lemma": true, "fn": true}
 var clauseKeywords = map[string]bool{"props": true, "requires": true, "ensures": true, "modifies": true, "loop": true, "safety": true,
-	"trusted": true, "pure": true, "noeffect": true, "nullable": true, "interference": true, "expect": true, "assert": true, "inline": true, "funcset": true,
+	"trusted": true, "pure": true, "noeffect": true, "nullable": true, "interference": true, "expect": true, "assert": true, "inline": true, "funcset": true, "returnsclosure": true,
 	"freshresult": true, "nonnilresult": true, "uses": true, "spawn": true, "records": true}
 
 // extractSpecLines pulls the //@ lines out of a Go source text.
@@ -998,6 +999,8 @@ func parseSpecText(src, pkg, file string, assumed bool) (*SpecFile, error) {
 				cur.NoEffect = true
 			case "inline":
 				cur.Inline = true
+			case "returnsclosure":
+				cur.RetClosure = strings.TrimSpace(s.rest)
 			case "funcset":
 				i := strings.Index(s.rest, "=")
 				if i < 0 {
